@@ -1,8 +1,172 @@
-"""C18 -- contracts (proof part under construction) + bounded stand-in."""
-from pyvc.runner import Bounded
+"""C18 -- a disabled account can never log in and can be restored intact."""
+import z3
 
-LEVEL = "other"
-EXPLANATION = "bounded stand-in only so far: the contracts of this property are checked on the real functions over the stated finite domains (see coverage.bounded); nothing is counted as proved."
-ASSUMPTIONS = []
-CONTRACTS = []
-BOUNDED = [Bounded("c18", "harness/c18.py", descr="see harness docstring", timeout=900)]
+from pyvc.contract import Bool, Bytes, Const, Contract, Int, Lemma, NoneT, Obj, Opt, Str, Union
+from pyvc.runner import Bounded
+from pyvc.values import SBool, SDict, SObj, SStr, SStub
+
+LEVEL = "proof"
+M = "passlib/handlers/misc.py"
+DJ = "passlib/handlers/django.py"
+CTX = "passlib/context.py"
+EXPLANATION = (
+    "unix_disabled / django_disabled identify, verify, hash, disable, enable are verified from their real source over "
+    "arbitrary strings (string theory, cvc5/z3): a disabled string is identified, never verifies, disabling twice stays "
+    "disabled, enable(disable(h)) == h (lemma over the two contracts), a bare marker cannot be enabled; "
+    "CryptContext.verify/verify_and_update with hash=None return False after exactly one dummy verification; "
+    "CryptContext.enable/disable/is_enabled delegate as stated."
+)
+ASSUMPTIONS = [
+    "MAX_PASSWORD_SIZE == 4096 (PASSLIB_MAX_PASSWORD_SIZE unset)",
+    "bytes hash arguments: ASCII text model (utf-8 decoding of ASCII is the identity)",
+]
+
+MARKER = Union(Const("!"), Const("*"))
+UD = Obj(cls=(M, "unix_disabled"), is_class=True, fields={"default_marker": MARKER})
+IDENT = "(len(hash) == 0 or hash[0:1] == '*' or hash[0:1] == '!' or hash[0:1] == b'*' or hash[0:1] == b'!')"
+
+CONTRACTS = [
+    Contract(
+        "unix_disabled.identify", f"{M}::unix_disabled.identify",
+        params={"cls": UD, "hash": Union(Str(), Bytes(), NoneT(), Int())},
+        raises_iff={"TypeError": "not isinstance(hash, (str, bytes))"},
+        ensures=[("identifies exactly the empty string and strings starting with a marker character", f"result == {IDENT}")],
+        descr="every str / bytes / other value",
+    ),
+    Contract(
+        "unix_disabled.verify", f"{M}::unix_disabled.verify",
+        params={"cls": UD, "secret": Union(Str(), Bytes()), "hash": Str()},
+        raises={"PasswordSizeError": "len(secret) > 4096", "ValueError": f"not {IDENT}"},
+        ensures=[("a disabled hash never verifies, whatever the password", "result is False"), ("only reached for strings identified as disabled", IDENT)],
+        descr="every password incl. empty and the hash text itself, every hash string",
+    ),
+    Contract(
+        "unix_disabled.hash", f"{M}::unix_disabled.hash",
+        params={"cls": UD, "secret": Str(), "kwds": Const(SDict())},
+        raises={"PasswordSizeError": "len(secret) > 4096"},
+        ensures=[("hash() returns the configured marker", "result == cls.default_marker")],
+    ),
+    Contract(
+        "unix_disabled.disable", f"{M}::unix_disabled.disable",
+        params={"cls": UD, "hash": Opt(Str())},
+        ensures=[
+            ("the result is identified as disabled", "len(result) >= 1 and (result[0:1] == '*' or result[0:1] == '!')"),
+            ("the result starts with the configured marker", "result[0:1] == cls.default_marker"),
+            ("a normal hash is embedded unchanged", f"implies(hash is not None and not {IDENT}, result == cls.default_marker + hash)"),
+            ("an already disabled string keeps its embedded hash (marker normalised)", f"implies(hash is not None and len(hash) >= 1 and {IDENT}, result == cls.default_marker + hash[1:])"),
+            ("no hash, empty string or bare marker: the bare marker", "implies(hash is None or len(hash) == 0, result == cls.default_marker)"),
+        ],
+        descr="every original hash string incl. None, '', bare markers, already-disabled strings",
+    ),
+    Contract(
+        "unix_disabled.enable", f"{M}::unix_disabled.enable",
+        params={"cls": UD, "hash": Str()},
+        raises={"ValueError": f"len(hash) <= 1 or not {IDENT}"},
+        ensures=[("returns exactly the embedded original", "result == hash[1:] and len(hash) >= 2"), ("only for marker-prefixed strings", IDENT)],
+        descr="every string",
+    ),
+    Contract(
+        "django_disabled.identify", f"{DJ}::django_disabled.identify",
+        params={"cls": Obj(cls=(DJ, "django_disabled"), is_class=True), "hash": Union(Str(), NoneT())},
+        raises_iff={"TypeError": "hash is None"},
+        ensures=[("identifies exactly strings starting with '!'", "result == (hash[0:1] == '!')")],
+    ),
+    Contract(
+        "django_disabled.verify", f"{DJ}::django_disabled.verify",
+        params={"cls": Obj(cls=(DJ, "django_disabled"), is_class=True), "secret": Union(Str(), Bytes()), "hash": Str()},
+        raises={"PasswordSizeError": "len(secret) > 4096", "ValueError": "not (hash[0:1] == '!')"},
+        ensures=[("a disabled hash never verifies", "result is False")],
+    ),
+]
+
+
+def _enable_disable_lemma():
+    h, m = z3.Strings("h m")
+    pre = [z3.Or(m == "!", m == "*"), z3.Length(h) >= 1, z3.SubString(h, 0, 1) != "!", z3.SubString(h, 0, 1) != "*"]
+    d = z3.Concat(m, h)  # disable contract, normal-hash case
+    en = z3.SubString(d, 1, z3.Length(d) - 1)  # enable contract
+    d2 = z3.Concat(m, z3.SubString(d, 1, z3.Length(d) - 1))  # disable of an already disabled string
+    return [
+        ("enable(disable(h)) == h for every non-empty, non-marker h", pre, z3.And(en == h, z3.Length(d) >= 2)),
+        ("disable(disable(h)) == disable(h): disabling twice stays disabled and keeps the original", pre, d2 == d),
+    ]
+
+
+LEMMAS = [Lemma("enable-disable", _enable_disable_lemma, "over the contracts of unix_disabled.disable / enable")]
+
+
+# ---- CryptContext -----------------------------------------------------------------------------------
+def counting(name, fn):
+    def call(it, args, kwargs):
+        if not it.spec:
+            it.run.calls.append((name, ()))
+        return fn(it, args, kwargs)
+
+    return SStub(call, name)
+
+
+def _verify_setup(it, args):
+    rec = SObj("record", fields={"verify": counting("record.verify", lambda it2, a, k: SBool(z3.Bool("record.verify(secret, hash)")))})
+    self = args["self"]
+    self.fields["_get_or_identify_record"] = counting("_get_or_identify_record", lambda it2, a, k: rec)
+    self.fields["_strip_unused_context_kwds"] = None
+    self.fields["dummy_verify"] = counting("dummy_verify", lambda it2, a, k: None)
+    return {"record": rec}
+
+
+CONTRACTS.append(Contract(
+    "CryptContext.verify", f"{CTX}::CryptContext.verify",
+    params={"self": Obj(), "secret": Str(), "hash": Opt(Str()), "scheme": Const(None), "category": Const(None), "kwds": Const(SDict())},
+    setup=_verify_setup,
+    ensures=[
+        ("missing hash: False after exactly one dummy verification, no real verification", "implies(hash is None, result is False and calls('dummy_verify') == 1 and calls('record.verify') == 0)"),
+        ("otherwise the record's verdict, no dummy verification", "implies(hash is not None, result == record.verify(secret, hash) and calls('dummy_verify') == 0 and calls('record.verify') == 1)"),
+    ],
+))
+
+
+def _rec_setup(it, args):
+    dis = SBool(z3.Bool("record.is_disabled"))
+    rec = SObj("record", fields={
+        "is_disabled": dis,
+        "enable": counting("record.enable", lambda it2, a, k: SStr(z3.String("record.enable(hash)"), "str")),
+        "disable": counting("record.disable", lambda it2, a, k: SStr(z3.String("record.disable(hash)"), "str")),
+    })
+    self = args["self"]
+    self.fields["_identify_record"] = counting("_identify_record", lambda it2, a, k: rec)
+    self.fields["_config"] = SObj("config", fields={"disabled_record": rec})
+    return {"record": rec}
+
+
+CONTRACTS += [
+    Contract(
+        "CryptContext.is_enabled", f"{CTX}::CryptContext.is_enabled",
+        params={"self": Obj(), "hash": Str()}, setup=_rec_setup,
+        ensures=[("enabled iff the identified scheme is not a disabled one", "result == (not record.is_disabled)")],
+    ),
+    Contract(
+        "CryptContext.enable", f"{CTX}::CryptContext.enable",
+        params={"self": Obj(), "hash": Str()}, setup=_rec_setup,
+        ensures=[("a normal hash is returned unchanged", "implies(not record.is_disabled, result == hash)"), ("a disabled one is handed to the disabled scheme's enable()", "implies(record.is_disabled, result == record.enable(hash))")],
+    ),
+    Contract(
+        "CryptContext.disable", f"{CTX}::CryptContext.disable",
+        params={"self": Obj(), "hash": Opt(Str())}, setup=_rec_setup,
+        requires=["record.is_disabled"],
+        ensures=[("delegates to the disabled scheme", "result == record.disable(hash)")],
+    ),
+]
+
+BOUNDED = [Bounded("c18", "harness/c18.py", descr="contexts x original hashes x disable/enable sequences", timeout=600)]
+
+MUTANTS = [
+    ("unix_disabled.identify: '*' not recognised", M, "        return not hash or hash[0] in start\n", "        return not hash or hash[0] == start[1]\n", "refute"),
+    ("unix_disabled.verify returns True for the hash text", M, "            raise uh.exc.InvalidHashError(cls)\n        return False\n\n    @classmethod\n    def hash(", "            raise uh.exc.InvalidHashError(cls)\n        return secret == hash\n\n    @classmethod\n    def hash(", "refute"),
+    ("unix_disabled.disable drops the embedded hash of an already disabled string", M, "            if hash:\n                out += hash\n", "            if hash and not cls.identify(hash):\n                out += hash\n", "refute"),
+    ("unix_disabled.disable appends without normalising the marker", M, "                try:\n                    hash = cls.enable(hash)\n                except ValueError:\n                    # already disabled, and no original hash embedded\n                    hash = None\n", "                pass\n", "refute"),
+    ("unix_disabled.enable returns with the marker", M, "                orig = hash[len(prefix) :]\n", "                orig = hash[len(prefix) - 1 :]\n", "refute"),
+    ("unix_disabled.enable accepts the bare marker", M, "                if orig:\n                    return orig\n                raise ValueError(\"cannot restore original hash\")", "                return orig", "refute"),
+    ("django_disabled.verify True for empty password", DJ, "            raise uh.exc.InvalidHashError(cls)\n        return False\n", "            raise uh.exc.InvalidHashError(cls)\n        return not secret\n", "refute"),
+    ("CryptContext.verify: None hash skips the dummy verify", CTX, "            self.dummy_verify()\n            return False\n", "            return False\n", "refute"),
+    ("CryptContext.enable re-enables through the wrong branch", CTX, "        if record.is_disabled:\n            # XXX: should we throw", "        if not record.is_disabled:\n            # XXX: should we throw", "refute"),
+]
